@@ -28,9 +28,10 @@ const (
 var formNames = [nForms]string{"noedns", "edns", "cookie", "opt65001", "ecs", "ecs+cookie", "cookie+ecs"}
 
 type ecsVar struct {
-	fam  uint16
-	src  uint8
-	addr net.IP // masked; 4 bytes (family 1) or 16 bytes (family 2)
+	fam   uint16
+	src   uint8
+	addr  net.IP // masked; 4 bytes (family 1) or 16 bytes (family 2)
+	first bool   // derived from the first base address of its family
 }
 
 func (e *ecsVar) id() string {
@@ -120,7 +121,7 @@ func allLens(n int) []int {
 func buildECSVariants(thorough bool) []*ecsVar {
 	var out []*ecsVar
 	seen := map[string]bool{}
-	add := func(fam uint16, base string, l int) {
+	add := func(fam uint16, base string, l int, first bool) {
 		ip := net.ParseIP(base)
 		bits := 128
 		if fam == 1 {
@@ -128,7 +129,7 @@ func buildECSVariants(thorough bool) []*ecsVar {
 			bits = 32
 		}
 		m := ip.Mask(net.CIDRMask(l, bits))
-		v := &ecsVar{fam: fam, src: uint8(l), addr: m}
+		v := &ecsVar{fam: fam, src: uint8(l), addr: m, first: first}
 		if !seen[v.id()] {
 			seen[v.id()] = true
 			out = append(out, v)
@@ -139,13 +140,13 @@ func buildECSVariants(thorough bool) []*ecsVar {
 		l4, l6 = allLens(32), allLens(128)
 	}
 	for _, l := range l4 {
-		for _, b := range bases4 {
-			add(1, b, l)
+		for i, b := range bases4 {
+			add(1, b, l, i == 0)
 		}
 	}
 	for _, l := range l6 {
-		for _, b := range bases6 {
-			add(2, b, l)
+		for i, b := range bases6 {
+			add(2, b, l, i == 0)
 		}
 	}
 	return out
@@ -187,6 +188,12 @@ func buildQueries(vars []*ecsVar, thorough bool) []*query {
 	}
 	for _, f := range []ednsForm{formECS, formECSCookie, formCookieECS} {
 		for _, v := range vars {
+			// A cookie next to the ECS option does not take part in any lookup:
+			// the quick tier combines it only with the variants of the first
+			// base address of each family (every source length).
+			if !thorough && f != formECS && !v.first {
+				continue
+			}
 			forms = append(forms, fe{f, v})
 		}
 	}
@@ -199,8 +206,8 @@ func buildQueries(vars []*ecsVar, thorough bool) []*query {
 				if !thorough && ri > 0 && c != classPositive {
 					continue
 				}
-				if !thorough && c == classBadVers && !mapped {
-					continue
+				if !thorough && !mapped && c != classPositive && c != classRefused {
+					continue // unmapped zone: the quick tier asks the positive and the REFUSED class only
 				}
 				for _, f := range forms {
 					if c == classBadVers && f.f == formNoEDNS {
